@@ -230,6 +230,7 @@ fn check(args: &[String]) {
     let mut alt_runs = 0u64;
     let mut kids = Vec::new();
     for w in 0..workers {
+        let _ = std::fs::remove_file(format!("{}/{}-crumb-{}", tmp, prop.name(), w));
         let df = format!("{}/{}-digests-{}.bin", tmp, prop.name(), w);
         let use_alt = alt_exe.is_some() && workers >= 4 && w % 4 == 3;
         let wexe = if use_alt { alt_exe.clone().unwrap() } else { exe.clone() };
@@ -281,7 +282,31 @@ fn check(args: &[String]) {
                         Some(v) => violations.push(v),
                         None => herr.push(format!("worker {} ended abnormally in run {} (seed {}) but the run does not die when repeated alone: status {:?}; {}", w, ri, rs, out.status, tail)),
                     },
-                    _ => herr.push(format!("worker {} ended abnormally: status {:?}; stderr tail: {}", w, out.status, tail)),
+                    _ => {
+                        // no run had started: the worker died while computing its pristine anchor table (one instance
+                        // of every type constructed, used, dropped). Does a fresh process of that build do so again?
+                        let order = if w == 0 { None } else { Some(seed ^ (w << 32)) };
+                        let mut a = vec!["anchor-table".to_string()];
+                        if let Some(o) = order {
+                            a.push("--anchor-order".into());
+                            a.push(o.to_string());
+                        }
+                        let label = if wexe == exe { "" } else { "tf" };
+                        let again = Command::new(&wexe).env("VERIF_BUILD_LABEL", label).args(&a).stdout(Stdio::null()).stderr(Stdio::null()).status();
+                        match again {
+                            Ok(st) if !st.success() => {
+                                let vj = json!({"property": "C15", "class": "died-at-start", "step": 0, "family": "", "variant": "",
+                                    "detail": format!("a freshly started process{} dies ({:?}) while constructing, using and dropping one instance of every type in turn (anchor order {:?}): some constructor, call or drop damages memory it does not own", if label.is_empty() { "" } else { " of the target-feature build" }, st, order),
+                                    "expected": "", "got": "", "also_violates": ["C04", "C12"]});
+                                let path = format!("{}/{}-died-at-start-{}-{}.json", replay_dir, prop.name(), seed, w);
+                                let _ = std::fs::create_dir_all(&replay_dir);
+                                let rj = json!({"format": "block-ciphers-sim-replay/1", "property": prop.name(), "engine": "native", "build": label, "died_at_start": true, "anchor_order": order, "violation": vj});
+                                let _ = std::fs::write(&path, serde_json::to_string_pretty(&rj).unwrap());
+                                violations.push(json!({"replay": path, "violation": vj}));
+                            }
+                            _ => herr.push(format!("worker {} ended abnormally before its first run and a fresh process does not: status {:?}; stderr tail: {}", w, out.status, tail)),
+                        }
+                    }
                 }
                 continue;
             }
@@ -621,11 +646,16 @@ fn check(args: &[String]) {
         stats.cipher_calls,
         wall
     );
-    if !herr.is_empty() {
+    if !herr.is_empty() && violations.is_empty() {
         for e in &herr {
             eprintln!("HARNESS-ERROR: {}", e);
         }
         std::process::exit(2);
+    }
+    for e in &herr {
+        // something went wrong in the harness AND the code under test violated the property elsewhere: the
+        // violations are confirmed one by one in fresh processes below; the harness trouble is reported beside them
+        println!("note: harness trouble beside the violations below: {}", e);
     }
     if !violations.is_empty() {
         // confirm each in a fresh process before reporting
@@ -711,6 +741,24 @@ fn replay(args: &[String]) {
                 std::process::exit(1);
             }
             None => println!("NOT-REPRODUCED: {} constructions, {} checkpoints without a divergence", o.constructions, o.checkpoints),
+        }
+        return;
+    }
+    if v.get("died_at_start").and_then(|x| x.as_bool()).unwrap_or(false) {
+        let exe = std::env::current_exe().unwrap();
+        let mut a = vec!["anchor-table".to_string()];
+        if let Some(o) = v.get("anchor_order").and_then(|x| x.as_u64()) {
+            a.push("--anchor-order".into());
+            a.push(o.to_string());
+        }
+        let st = Command::new(&exe).args(&a).stdout(Stdio::null()).stderr(Stdio::null()).status();
+        match st {
+            Ok(s) if !s.success() => {
+                println!("REPRODUCED: a fresh process dies ({:?}) while constructing, using and dropping one instance of every type", s);
+                println!("VIOLATION property={} replay={}", v.get("property").and_then(|x| x.as_str()).unwrap_or("C15"), path);
+                std::process::exit(1);
+            }
+            _ => println!("NOT-REPRODUCED: a fresh process computes its anchor table and exits normally"),
         }
         return;
     }
